@@ -18,6 +18,7 @@ func init() {
 		*fBudget = total
 		return res
 	}
+	engines["C02SEG"] = runSegCrash // development: the segment-level part alone
 	engines["C03"] = func() *ShardResult {
 		res := runCrash("C03")
 		if *fShard == 0 {
@@ -240,13 +241,20 @@ func runSegCrash() *ShardResult {
 	if *fTier == "thorough" {
 		depth = 6
 	}
+	bigKids, bigStride := 2, [6]int{251, 2048, 2039, 251, 4096, 1021}
+	if *fTier == "thorough" {
+		bigKids, bigStride = 24, [6]int{61, 1024, 509, 127, 2048, 509}
+	}
 	st := &core.SegCrashStats{}
-	cfg := core.SegCrashCfg{Depth: depth, Shapes: [][]int{{0}, {8}, {16}, {0, 0}, {8, 0}, {0, 16}, {16, 8, 0}}, Deadline: time.Now().Add(*fBudget), Shard: *fShard, NShards: *fNShards, MaxFindings: 30}
+	cfg := core.SegCrashCfg{BigKids: bigKids, BigStride: bigStride, Depth: depth, Shapes: [][]int{{0}, {8}, {16}, {0, 0}, {8, 0}, {0, 16}, {16, 8, 0}}, Deadline: time.Now().Add(*fBudget), Shard: *fShard, NShards: *fNShards, MaxFindings: 30}
 	e := core.NewSegCrashEngine(cfg, st)
 	e.Run()
 	res.Findings = e.Findings
 	res.Bounds["depth"] = depth
 	res.Bounds["batch_shapes_payload_bytes"] = cfg.Shapes
+	res.Bounds["large_out_of_order_batch"] = "{204800,100,100} after a committed batch, crash with the whole write pending: prefixes, every range of blocks missing / alone landed, single chunks missing; below the images that lost it (beginning missing first), one-entry batches ending at each stale frame boundary, same families"
+	res.Bounds["large_out_of_order_strides_chunks_prefix_block_hole_level1_level2"] = bigStride
+	res.Bounds["large_out_of_order_images_expanded_per_shard"] = bigKids
 	res.Counts["batches_recorded"] = int64(st.Batches)
 	res.Counts["states_expanded"] = int64(st.States)
 	res.Counts["recoveries_run"] = int64(st.Recoveries)
